@@ -898,6 +898,13 @@ func evalFunctionCall(node *jparse.FunctionCallNode, data reflect.Value, env *en
 		return undefined, newEvalError(ErrNonCallable, node.Func, nil)
 	}
 
+	// Built-in and extension functions are shared by all
+	// expressions (and goroutines). The name and context of
+	// this call go into a copy, never into the shared object.
+	if shared, ok := fn.(*goCallable); ok {
+		fn = shared.forCall()
+	}
+
 	if setter, ok := fn.(nameSetter); ok {
 		if sym, ok := node.Func.(*jparse.VariableNode); ok {
 			setter.SetName(sym.Name)
